@@ -43,10 +43,13 @@ T = {
          'All assignment histories up to a depth over a 3-value alphabet are executed on the real classes; every derived quantity is compared with its closed form on every state.', 'depth-bounded'),
  'C16': ('E1+E2', '4/C16', 'exhaustive enumeration of all subsets of missing specification items and BFS over edit/create/solve histories of the real System (three type-name sets incl. a copolymer + third species); wiring oracle computed from the spec + differential vs freshly built System + snapshot digests + PRISM objects left untouched until after later edits',
          'All 2^14 subsets of removed items and all edit histories up to a depth are executed on the real System/PRISM classes.', 'depth-bounded histories'),
+ 'C18': ('E1', '4/C18', 'exhaustive enumeration of (site count x every molecule partition x frames x boxes x self / every cross split x chunk counts 1..N+2,16 x OpenMP team sizes x repetitions x all site orders for N<=4) on the compiled extension built from the working tree; direct Debye sum + bitwise determinism across team sizes and repetitions',
+         'The extension is built from the working tree and every element of the product is executed on the compiled code; the curve is compared with the direct intramolecular Debye sum under the minimum image, and for a fixed chunk count it must be bitwise identical for every OpenMP team size and repetition.',
+         'thread interleavings inside one OpenMP region are not enumerated (no controllable scheduler); float32 arithmetic inside the extension'),
  'C17': ('E1', '4/C17', 'exhaustive product of characteristic values x unit spellings x methods x argument shapes/layouts/dtypes, all ordered call pairs, all construction/use orders of two converters, omitted-argument constructions, copies, calls after a failed call on the real UnitConverter; SI-2019 exact constants',
          'The complete product is executed and compared with own formulas.', 'pint unit registry parses the unit strings'),
 }
-NA = [{'property_id': 'C18', 'reason': 'the Cython Debyer extension cannot be built in this sandbox (np.int removed, shipped C file is for CPython 3.6), so there is no implementation to execute, and OpenMP schedules inside native code are outside any scheduler the harness could own; see DESIGN.md 4/C18'}]
+NA = []
 checks = []
 engines = {}
 for pid in sorted(T):
